@@ -19,6 +19,7 @@ func c04(c *Ctx) {
 	r.Floor("R1.buffer-escape", 8)
 	r.Floor("R2.key-agreement", 3)
 	r.Floor("R3.refused-put-noop", 3)
+	r.Floor("R3.accepted-put-writes", 2)
 	r.Floor("R4.reserved-key", 1)
 	r.Floor("R5.routing", 2)
 
@@ -165,6 +166,38 @@ func c04(c *Ctx) {
 		// arguments of the radius test: the same derived key
 		okArg := keyOK(m.put, radiusCall.Call.Args[len(radiusCall.Call.Args)-1], contentId)
 		r.Check(okArg, "R3.refused-put-noop", core.FuncName(m.put)+" radius-test-operand", p.Pos(radiusCall.Pos()), "the radius test is applied to the key that is written", "the radius test is applied to something other than the key that is written")
+	}
+
+	// ---- R3b: an accepted put really writes: every success exit of Put passes the item write and a successful commit
+	{
+		var itemSet ssa.CallInstruction
+		for _, ci := range core.CallsTo(m.put, batchSet) {
+			if !isSizeKey(ci.Common().Args[1]) {
+				itemSet = ci
+			}
+		}
+		commits := core.CallsTo(m.put, batchCommit)
+		if itemSet == nil || len(commits) == 0 {
+			r.Fail("R3.accepted-put-writes", core.FuncName(m.put), p.Pos(m.put.Pos()), "Put has no item write / commit")
+		} else {
+			commit := func(c2 *ssa.Call) bool {
+				for _, cm := range commits {
+					if ssa.Instruction(c2) == ssa.Instruction(cm.(*ssa.Call)) {
+						return true
+					}
+				}
+				return false
+			}
+			g := core.ErrNilGate("commit", commit)
+			w := core.AllSuccessPass(m.put, g, nil)
+			r.Check(w == nil, "R3.accepted-put-writes", core.FuncName(m.put)+" success-implies-commit", p.Pos(m.put.Pos()),
+				"every nil return passed a successful batch commit", "Put can report success without having committed anything (an accepted put that is silently dropped): "+p.PathString(w))
+			for _, cm := range commits {
+				w2 := core.MustPassBefore(cm, func(in ssa.Instruction) bool { return in == ssa.Instruction(itemSet) })
+				r.Check(w2 == nil, "R3.accepted-put-writes", core.FuncName(m.put)+" commit-includes-item", p.Pos(cm.Pos()),
+					"the commit is reached only after the item was added to the batch", "the batch can be committed without the item: "+p.PathString(w2))
+			}
+		}
 	}
 
 	// ---- R4 reserved key
